@@ -142,6 +142,17 @@ def slices(prop, tier, seed):
         S.append(("S-cond-plan", W.s_cond(bp, seed, resolve_modes=(False, True),
                                           clusters=("1x2",), releases=("one",),
                                           runtimes=(1,))))
+    elif prop == "C08":
+        S += dag(g, g3, seed, th)
+        S.append(("S-cond", W.s_cond(g3, seed, clusters=("1x1", "1x2"),
+                                     releases=("two@0",))))
+        S.append(("S-res", W.s_res({"EDF": gp["EDF"]} if not th else g3, seed,
+                                   full=th)))
+        S.append(("S-closed", W.s_closed(g, seed)))
+        S.append(("S-plan", W.s_plan(pp if th else pp_small, seed,
+                                     max_n=3 if th else 2)))
+        S.append(("S-time", W.s_time({"EDF": gp["EDF"]} if not th else gp, seed,
+                                     max_n=2 if not th else 3)))
     elif prop == "C18":
         S += dag(g, g3, seed, th)
         S.append(("S-cond", W.s_cond(gp, seed, clusters=("1x2", "2p"),
@@ -165,6 +176,8 @@ REQUIRED = {
     "C06": ("cancellations", "graphs_finished", "dead_tasks"),
     "C07": ("conditional_completions",),
     "C18": ("offers", "offered_tasks"),
+    "C08": ("runs_with_rows_checked", "traces_accepted_by_reader", "missed_deadlines",
+            "cancelled_graphs", "scheduler_rows"),
 }
 
 BUDGET = {"quick": 240, "thorough": 2400}
